@@ -21,7 +21,7 @@ RULE = ("histories over a pool of 12 term recipes (leaves, lazy binary/unary/red
         "audits. A case is one history; non-trivial when it contains >=2 constructions of one key or a drop+gc+reconstruct; distinct by the action sequence")
 ASSUMPTIONS = ["hashable constructor arguments are equal when ==; arrays are equal when identical", "CPython reference counting + gc.collect() reclaims unreachable terms"]
 MIN_NONTRIVIAL = {"quick": 1500, "thorough": 15000}
-REQUIRED_COUNTERS = ["identity-checks", "distinctness-checks", "weakref-dead-checks", "intern-table-audits", "pickle-checks", "stale-field-checks", "used-op-weak-checks", "hash-collision-checks"]
+REQUIRED_COUNTERS = ["identity-checks", "distinctness-checks", "weakref-dead-checks", "intern-table-audits", "pickle-checks", "stale-field-checks", "used-op-weak-checks", "hash-collision-checks", "keyword-checks"]
 
 INTERPS = ("reflect", "lazy", "eager")
 
@@ -334,6 +334,41 @@ def domain_and_op_checks(res, rng, errors):
         if a2 is not a or b2 is not b:
             errors.append(("identity:hash-colliding-args-not-interned", "%s: rebuilding while both are alive gives different objects" % label))
         del a, b, a2, b2
+    # keyword construction: the same arguments given by keyword, in any order, denote the same term as positional construction
+    from funsor.interpretations import reflect as _reflect
+    from funsor.domains import Real
+
+    xa, xb = T.Variable("ka", Real), T.Variable("kb", Reals[2])
+    kv = T.Variable("kk", Bint[n])
+    keyword_forms = [
+        ("Binary(rhs=, lhs=)", T.Binary, (ops.sub, xa, T.Variable("kc", Real)), ("op", "lhs", "rhs")),
+        ("Binary(getitem; rhs=, lhs=)", T.Binary, (ops.getitem, xb, T.Variable("ki", Bint[2])), ("op", "lhs", "rhs")),
+        ("Unary(arg=, op=)", T.Unary, (ops.exp, xa), ("op", "arg")),
+        ("Reduce(reduced_vars=, arg=, op=)", T.Reduce, (ops.add, T.Binary(ops.mul, xa, kv), frozenset([kv])), ("op", "arg", "reduced_vars")),
+        ("Variable(output=, name=)", T.Variable, ("kname", Reals[n]), ("name", "output")),
+        ("Stack(parts=, name=)", T.Stack, ("ks", (xa, T.Variable("kc", Real))), ("name", "parts")),
+        ("Lambda(expr=, var=)", T.Lambda, (kv, T.Binary(ops.mul, xa, kv)), ("var", "expr")),
+        ("Independent(...)", T.Independent, (T.Binary(ops.add, T.Variable("kr_kk", Real), kv), "kr", "kk", "kr_kk"), ("fn", "reals_var", "bint_var", "diag_var")),
+    ]
+    with _reflect:
+        for label, cls, args, fields in keyword_forms:
+            try:
+                pos = cls(*args)
+                forms = []
+                k = len(fields)
+                # all keywords reversed; first argument positional and the rest reversed; all keywords in order
+                forms.append(cls(**dict(reversed(list(zip(fields, args))))))
+                forms.append(cls(args[0], **dict(reversed(list(zip(fields[1:], args[1:]))))))
+                forms.append(cls(**dict(zip(fields, args))))
+            except Exception as e:
+                res.count("keyword-declined:%s:%s" % (label.split("(")[0], type(e).__name__))
+                errors.append(("identity:keyword-construction-raised", "%s raised %s although positional construction succeeds" % (label, type(e).__name__)))
+                continue
+            res.count("identity-checks", len(forms))
+            res.count("keyword-checks")
+            if any(f is not pos for f in forms):
+                errors.append(("identity:keyword-args-different-object", "%s built with keyword arguments (some order) is not the object built positionally from the same arguments" % label))
+            del pos, forms
     same("type:Reduce[...]", lambda: T.Reduce[ops.AddOp, Tensor, frozenset], picklable=False)
     same("type:Binary[...]", lambda: T.Binary[ops.MulOp, Tensor, T.Variable], picklable=False)
     res.count("distinctness-checks")
